@@ -13,6 +13,7 @@ type confirmed struct {
 	Sources   map[string]Source        `json:"sources"`
 	Files     map[string]string        `json:"files"`
 	Structs   map[string][]StructField `json:"structs"`
+	Edges     map[string][]string      `json:"edges"`
 }
 
 func loadConfirmed() confirmed {
@@ -56,4 +57,13 @@ func ConfirmedStructs() map[string][]StructField {
 		return map[string][]StructField{}
 	}
 	return c.Structs
+}
+
+// ConfirmedEdges: for every function of that tree, the functions of its own package it calls.
+func ConfirmedEdges() map[string][]string {
+	c := loadConfirmed()
+	if c.Edges == nil {
+		return map[string][]string{}
+	}
+	return c.Edges
 }
